@@ -268,7 +268,7 @@ uint32_t qhashmurmur3_32(const void *data, size_t nbytes) {
     const uint32_t c2 = 0x1b873593;
 
     const int nblocks = nbytes / 4;
-    const uint32_t *blocks = (const uint32_t *) (data);
+    const uint8_t *blocks = (const uint8_t *) (data);
     const uint8_t *tail = (const uint8_t *) (data + (nblocks * 4));
 
     uint32_t h = 0;
@@ -276,7 +276,7 @@ uint32_t qhashmurmur3_32(const void *data, size_t nbytes) {
     int i;
     uint32_t k;
     for (i = 0; i < nblocks; i++) {
-        k = blocks[i];
+        memcpy(&k, blocks + (i * 4), sizeof(k));
 
         k *= c1;
         k = (k << 15) | (k >> (32 - 15));
@@ -340,7 +340,7 @@ bool qhashmurmur3_128(const void *data, size_t nbytes, void *retbuf) {
     const uint64_t c2 = 0x4cf5ad432745937fULL;
 
     const int nblocks = nbytes / 16;
-    const uint64_t *blocks = (const uint64_t *) (data);
+    const uint8_t *blocks = (const uint8_t *) (data);
     const uint8_t *tail = (const uint8_t *) (data + (nblocks * 16));
 
     uint64_t h1 = 0;
@@ -349,8 +349,8 @@ bool qhashmurmur3_128(const void *data, size_t nbytes, void *retbuf) {
     int i;
     uint64_t k1, k2;
     for (i = 0; i < nblocks; i++) {
-        k1 = blocks[i * 2 + 0];
-        k2 = blocks[i * 2 + 1];
+        memcpy(&k1, blocks + ((i * 2 + 0) * 8), sizeof(k1));
+        memcpy(&k2, blocks + ((i * 2 + 1) * 8), sizeof(k2));
 
         k1 *= c1;
         k1 = (k1 << 31) | (k1 >> (64 - 31));
@@ -438,8 +438,8 @@ bool qhashmurmur3_128(const void *data, size_t nbytes, void *retbuf) {
     h1 += h2;
     h2 += h1;
 
-    ((uint64_t *) retbuf)[0] = h1;
-    ((uint64_t *) retbuf)[1] = h2;
+    memcpy(retbuf, &h1, sizeof(h1));
+    memcpy((uint8_t *) retbuf + sizeof(h1), &h2, sizeof(h2));
 
     return true;
 }
